@@ -1,5 +1,7 @@
-import Driver.Util
-/-! `drv_poller`: not built yet -/
-def main : IO UInt32 := do
-  IO.eprintln "drv_poller: engine not implemented"
-  return 2
+import Driver.PollerDrv
+open Driver
+
+def main (args : List String) : IO UInt32 := do
+  let lines ← readLines (← IO.getStdin) #[]
+  PollerDrv.main args lines
+  return 0
